@@ -80,13 +80,16 @@ Definition switch_off (n : nat) (cfg : deviations) : deviations :=
      d_start_order := if Nat.eqb n 121 then false else d_start_order cfg;
      d_pending_zombie := if Nat.eqb n 122 then false else d_pending_zombie cfg;
      d_limit_kw := if Nat.eqb n 123 then false else d_limit_kw cfg;
-     d_rt_owner := if Nat.eqb n 124 then false else d_rt_owner cfg |}.
+     d_rt_owner := if Nat.eqb n 124 then false else d_rt_owner cfg;
+     d_stack_rollback := if Nat.eqb n 125 then false else d_stack_rollback cfg;
+     d_interleave := if Nat.eqb n 127 then false else d_interleave cfg;
+     d_spurious_remove := if Nat.eqb n 126 then false else d_spurious_remove cfg |}.
 Definition switch_on (n : nat) (cfg : deviations) : bool :=
   match n with
   | 21 => d_stale_handler cfg | 23 => d_no_alias cfg | 26 => d_dup_set cfg | 120 => d_alias_abort cfg
-  | 121 => d_start_order cfg | 122 => d_pending_zombie cfg | 123 => d_limit_kw cfg | 124 => d_rt_owner cfg | _ => false
+  | 121 => d_start_order cfg | 122 => d_pending_zombie cfg | 123 => d_limit_kw cfg | 124 => d_rt_owner cfg | 125 => d_stack_rollback cfg | 126 => d_spurious_remove cfg | 127 => d_interleave cfg | _ => false
   end.
-Definition life_switches : list nat := [21; 23; 26; 120; 121; 122; 124]%nat.
+Definition life_switches : list nat := [21; 23; 26; 120; 121; 122; 124; 125; 127]%nat.
 
 (* a finding explains the failure iff its switch is on and switching it off changes what the Model predicts on this
    case; if no single switch matters but the conformant Model differs, all switches that are on are named *)
@@ -198,3 +201,44 @@ Definition vcase_model_ok (c : vcase) : bool :=
 Definition vcase_spec_ok (c : vcase) : bool :=
   forallb (fun v => match vc_ret v with Some (r, a) => Z.eqb a (vc_a v) && Z.eqb r (ov_fun (vc_a v)) | None => false end) (vv_calls c).
 Definition vcase_explain (c : vcase) := map (fun v => (vc_a v, model_activation (vc_a v), vc_ret v)) (vv_calls c).
+
+(* ================= a stop (or anything else) arriving in the middle of a start-up (stream "mid") ================= *)
+From PV Require Import Life.ServicesMid.
+
+Record mcase := mk_mcase {
+  mc_keys : list key;
+  mc_pre : list op;                                 (* ordinary operations first (default subsystem) *)
+  mc_ctx : cid; mc_body : list stmt; mc_oracle : list gen;     (* the load whose start-ups are held after their first turn *)
+  mc_intr : op;                                     (* what happens while they wait *)
+  mc_obs : list (list kobs)                         (* observed after the held load, after the interruption, after the release *)
+}.
+
+Definition mid_states (cfg : deviations) (c : mcase) : list st :=
+  let s0 := run_ops cfg false (mc_pre c) init_st in
+  let '(s1, m1) := held_load cfg s0 (mc_ctx c) (mc_body c) (mc_oracle c) in
+  let '(s2, m2) := interrupt cfg s1 m1 (mc_intr c) in
+  [s1; s2; release_mid cfg s2 m2].
+Definition mid_steps (cfg : deviations) (c : mcase) : list (list kobs) :=
+  map (fun s => map (model_kobs s []) (mc_keys c)) (mid_states cfg c).
+Definition mcase_model_ok (cfg : deviations) (c : mcase) : bool :=
+  list_eqb (list_eqb kobs_eqb) (mid_steps cfg c) (mc_obs c).
+
+(* the property speaks about the state once everything has completed: after the release the registry must be what the
+   operation sequence [pre; load; interruption] requires *)
+Definition mcase_spec_ok (c : mcase) : bool :=
+  let t := fold_left ref_op (mc_pre c ++ [OLoad (mc_ctx c) (mc_body c) (mc_oracle c); mc_intr c]) init_rst in
+  match mc_obs c with
+  | [_; _; final] => all2 (spec_kobs t []) (mc_keys c) final
+  | _ => false
+  end.
+
+Definition mid_switches : list nat := [21; 23; 120; 121; 122; 124; 125; 126; 127]%nat.
+Definition mid_same (cfg cfg' : deviations) (c : mcase) : bool :=
+  list_eqb (list_eqb vis_kobs_eqb) (mid_steps cfg c) (mid_steps cfg' c).
+Definition mcase_attrib (cfg : deviations) (c : mcase) : list nat :=
+  let single := filter (fun n => switch_on n cfg && negb (mid_same cfg (switch_off n cfg) c)) mid_switches in
+  match single with
+  | _ :: _ => single
+  | [] => if mid_same cfg all_off c then [] else filter (fun n => switch_on n cfg) mid_switches
+  end.
+Definition mcase_explain (cfg : deviations) (c : mcase) := map (map show_kobs) (mid_steps cfg c).
